@@ -2147,12 +2147,31 @@ func generatePatterns(tier string, seed int64) ([]string, []string, map[string]i
 			}
 		}
 	}
+	// the capture guards with the capture under every quantifier kind, greedy and lazy
+	{
+		gr := common.NewRand(seed, "c11-capture-guards")
+		all := captureGuardPatterns()
+		ctx := []string{"%s", "%s", "%s", "(%s)", "a|%s", "(?i:%s)", "%sz{1}", "[b]%s"}
+		for n, k := 0, 0; k < len(all); k++ {
+			// every third pattern bare, the others in a context; a deterministic sample bounded by the tier
+			if n >= 170*scale {
+				break
+			}
+			p := all[(k*7+int(seed))%len(all)]
+			if k%3 != 0 {
+				p = fmt.Sprintf(ctx[gr.Intn(len(ctx))], p)
+			}
+			if add(p, "captureguards") {
+				n++
+			}
+		}
+	}
 	// captures + alternation + anchors + non-greedy + flags, combined, close to the 60-byte limit
 	{
 		cr := common.NewRand(seed, "c11-combo")
 		pieces := []string{"(a|b)", "(?P<n>ab|c)", "^", "$", "a+?", "b*?", "(?:x|yz)??", "(?i:ab)", "(?s:.)", "(?U:a+)", "(?i)", "(?m:^a$)", "[a-c]", "[0-9]",
 			`\d{1,}`, "x{0,1}?", "(foo|fo)", "(fo|xfo)", "(a)(?:b)(?:b)*", "   ", `\.`, "(a{1})", "(?:[ab])", "(?:(a)|b)+?", "a{2,3}?", `\bfoo\b`, "(?i:k)",
-			"[[:alpha:]]", "aaaaa", "(?P<q>x)*?", "|", "(?:ab|abc)", "(x)|(y)", `[^\s]`, "(?i:aB|cab)", "(?:a){1,}?", `\/`, "(?s:a.{0,}?)", "(b|)c"}
+			"[[:alpha:]]", "aaaaa", "(?P<q>x)*?", "|", "(?:ab|abc)", "(x)|(y)", `[^\s]`, "(?i:aB|cab)", "(?:a){1,}?", `\/`, "(?s:a.{0,}?)", "(b|)c", "(a)??", "(b){2}?", "((a)+?)", "(?:(x)*?;)"}
 		for n, tries := 0, 0; n < 80*scale && tries < 20000*scale; tries++ {
 			var b strings.Builder
 			for b.Len() < 46+cr.Intn(12) {
